@@ -42,6 +42,14 @@ CHECKS.update({
          "Exploration: ~19 model runs per program over classic + random litmus programs plus child-process probes of max_threads.",
          "trusted: pathmon.rs, lit.rs interpreter; equality only demanded where the region provably holds no two-alternative decision", "§5-C19"),
 })
+CHECKS.update({
+ "C04": ("runtime monitoring: loom::model's causality-violation verdict on generated programs vs. an independent happens-before computation (axiomatic race oracle for atomics idioms, vector-clock reference machine for lock/channel/park/notify idioms)",
+         "Exploration: enumerated message-passing idioms (1-2 hops, RMW chains, fence pairs, spawn/join, unsync_load) in every ordering assignment + random programs; loom must report a race iff some consistent execution has two conflicting accesses unordered by happens-before (strong/weak gap decides nothing).",
+         "trusted: rc11.rs race_verdict, sync.rs reference machine; await loops modelled as blocking reads", "§5-C04"),
+ "C06": ("runtime monitoring with fault injection: user assertions injected at crash points (any thread, while holding guards, inside with_mut closures, while others are blocked, before a spawned thread ran, at the branch limit); catch_unwind verdict vs. reachable failures of the reference machine; worker survival; probe model compared with its fresh-process record",
+         "Fault enumeration: every program carries one or more injected failures; loom::model must unwind with a reachable failure (never return normally, never kill the process), return normally when none is reachable, and leave the process clean for the next model.",
+         "trusted: sync.rs reference machine, panic classifier; when several failure kinds are reachable any is accepted", "§5-C06"),
+})
 NOT_YET = {}
 def main():
     props = [json.loads(l) for l in open(os.path.join(ROOT, "properties.jsonl"))]
